@@ -350,3 +350,17 @@ package buffer
 //@   requires b != nil
 //@   modifies b.next
 //@   ensures rebound: b.next == next && result == nil
+
+// ---- construction -----------------------------------------------------------------------------------------------------
+// Options set limits, the retry predicate, the error handler and logging; they are assumed not to rebind the wrapped
+// handler and not to keep the middleware under construction.
+//@ globalinv errHandler: errHandler != nil
+//@ functype buffer.Option
+//@   params b
+//@   modifies b.maxRequestBodyBytes, b.memRequestBodyBytes, b.maxResponseBodyBytes, b.memResponseBodyBytes, b.retryPredicate, b.errHandler, b.verbose, b.log
+//@ func New
+//@   props C06 C07 C15 C20
+//@   modifies nothing
+//@   ensures wired: result1 == nil ==> result0 != nil && fresh(result0) && result0.next == next && result0.errHandler != nil
+//@   ensures no_limits_no_retries_by_default: result1 == nil && len(setters) == 0 ==> result0.maxRequestBodyBytes == -1 && result0.maxResponseBodyBytes == -1 && result0.memRequestBodyBytes == 1048576 && result0.memResponseBodyBytes == 1048576 && result0.retryPredicate == nil
+//@   loop 1 invariant strm != nil && fresh(strm) && strm.next == next && (len(setters) == 0 ==> strm.maxRequestBodyBytes == -1 && strm.maxResponseBodyBytes == -1 && strm.memRequestBodyBytes == 1048576 && strm.memResponseBodyBytes == 1048576 && strm.retryPredicate == nil && strm.errHandler == nil)
